@@ -193,15 +193,30 @@ func c10History(r *vkit.Run, caseNo int, rg *vkit.Rand) {
 	}
 	nops := rg.Range(8, 18)
 	lastKind := ""
+	// drop → re-create of the same measurement → unclean restart, all inside one run of the
+	// field change log, is steered at (the replay of deletion records is only reached that way)
+	lastDropM, recreated := "", false
 	for i := 0; i < nops; i++ {
 		var o c10Op
 		x := rg.Intn(100)
+		onlyM := ""
+		switch {
+		case lastKind == "drop" && rg.Chance(1, 2):
+			x, onlyM = 0, lastDropM // a write that re-creates the dropped measurement
+		case recreated && rg.Chance(1, 2):
+			x = 99 // crash
+		}
+		recreated = false
 		switch {
 		case x < 60:
 			o.Kind = "write"
 			npts := rg.Range(1, 5)
+			recreated = onlyM != ""
 			for j := 0; j < npts; j++ {
 				me := vkit.Pick(rg, c10Measurements)
+				if onlyM != "" {
+					me = onlyM
+				}
 				f := vkit.Pick(rg, c10Fields)
 				k := vkit.Pick(rg, c10Kinds)
 				if have, ok := schema[me][f]; ok && rg.Chance(2, 3) {
@@ -228,6 +243,7 @@ func c10History(r *vkit.Run, caseNo int, rg *vkit.Rand) {
 			}
 		case x < 72:
 			o.Kind, o.M = "drop", vkit.Pick(rg, c10Measurements)
+			lastDropM = o.M
 		case x < 84:
 			o.Kind = "reopen"
 		default:
@@ -235,6 +251,7 @@ func c10History(r *vkit.Run, caseNo int, rg *vkit.Rand) {
 		}
 		if (o.Kind == "reopen" || o.Kind == "crash") && (lastKind == "reopen" || lastKind == "crash") {
 			o = c10Op{Kind: "drop", M: vkit.Pick(rg, c10Measurements)}
+			lastDropM = o.M
 		}
 		lastKind = o.Kind
 		hist = append(hist, o)
